@@ -4,6 +4,7 @@ import (
 	"errors"
 	"fmt"
 	"reflect"
+	"runtime"
 	"runtime/debug"
 	"strings"
 
@@ -421,6 +422,7 @@ func RefillG(g tensor.Tensor, t *ref.T) (ok bool) {
 			return false
 		}
 		reflect.Copy(dv, b)
+		runtime.KeepAlive(d) // Data() goes through a uintptr (see ToG)
 		return true
 	}
 	if b.Len() != 1 {
